@@ -175,10 +175,13 @@ func init() {
 			if tier == "quick" && r.Float64() < 0.5 {
 				c.P["every"] = 3
 			}
+			// swarm: seeded preemption at the device seams, so that background restore goroutines of
+			// closed read streams run late relative to the caller's next call
+			c.P["yield"] = int64([]int{0, 0, 10, 30}[r.IntN(4)])
 			return c
 		},
 		Eval: func(t *testing.T, c *Case, st *Stats, relax Relax) *Violation {
-			return RunSeq(t, c, st, relax, seqOpts{}, func(x *SeqCtx) *Violation {
+			return RunSeq(t, c, st, relax, seqOpts{YieldProb: float64(c.Param("yield", 0)) / 100}, func(x *SeqCtx) *Violation {
 				names := namesOf(c.Ops)
 				every := int(c.Param("every", 1))
 				okMut := 0
@@ -304,7 +307,7 @@ func init() {
 	// ------------------------------------------------------------ C13
 	Register(&Check{
 		ID: "C13", Level: "exploration", Tech: "deterministic simulation: invariant monitor over namespace after every call (live rows vs walk vs listings vs lookups)",
-		Rule:      "seeded sequential histories (deep MkdirAll, creation under regular files, many children, adversarial names); after every call: live index rows == entries reached by walking, every entry has a live directory parent, Readdir/Readdirnames(n) for n in {-1,0,1,2,3,k,k+1} return only children, each once, all when n<=0, at most n otherwise, listed entries stat/open with matching kind and size; non-trivial = at least 3 live entries; distinct by (op-kind sequence, name style)",
+		Rule:      "seeded sequential histories (deep MkdirAll, creation under regular files, many children, adversarial names); after every call: live index rows == entries reached by walking, every entry has a live directory parent, Readdir/Readdirnames(n) for n in {-1,0,1,2,3,k/2,k-1,k,k+1} return only children, each once, all when n<=0, at most n otherwise, listed entries stat/open with matching kind and size; non-trivial = at least 3 live entries; distinct by (op-kind sequence, name style)",
 		QuickRuns: 1800, QuickSecs: 50, ThoroughRuns: 80000, ThoroughSecs: 1200,
 		Assumptions: []string{"live entries are taken from the index store's GetHeaders (tombstones excluded)"},
 		Gen: func(r *rand.Rand, tier string, relax Relax) *Case {
@@ -379,6 +382,11 @@ func tapeAtRest(prop string, step int, b []byte) *Violation {
 	if _, err := ScanTape(b); err != nil {
 		return &Violation{Prop: prop, Oracle: "tape-not-tar", Step: step, Detail: err.Error()}
 	}
+	// a well-formed tar archive ends with the end-of-archive marker (two zero blocks); at rest the
+	// last archive of the concatenation is complete
+	if len(b) > 0 && (len(b) < 1024 || !isZero(b[len(b)-1024:])) {
+		return &Violation{Prop: prop, Oracle: "last-archive-not-terminated", Step: step, Detail: fmt.Sprintf("the tape (%d bytes) does not end with the end-of-archive marker (two zero blocks)", len(b))}
+	}
 	return nil
 }
 
@@ -449,7 +457,7 @@ func namespaceInvariants(x *SeqCtx, step int) (int, *Violation) {
 		for _, c := range ch {
 			set[c] = true
 		}
-		for _, n := range []int{-1, 0, 1, 2, 3, len(ch), len(ch) + 1} {
+		for _, n := range []int{-1, 0, 1, 2, 3, len(ch) / 2, len(ch) - 1, len(ch), len(ch) + 1} {
 			for _, kind := range []string{"h.readdir", "h.readdirnames"} {
 				e := NewExec(x.St.FS, x.S)
 				if r := e.Do(Op{K: "open", P: d, H: 1}); r.Class != "ok" {
